@@ -45,7 +45,8 @@ def make_check(max_choices, **run_kw):
 
 
 def _strategy():
-    return gp.programs().map(lambda p: {"prog": p})
+    return st.one_of(gp.programs(), gp.programs(), gp.programs(),
+                     gp.programs(share_bias=True, max_preds=3)).map(lambda p: {"prog": p})
 
 
 def render(case):
@@ -53,6 +54,7 @@ def render(case):
 
 
 KNOWN_CLASSES = {
+    "cyclic_or_complement": lambda case, failure: gp.cyclic_body_disjunction_with_complement(case["prog"]),
     "shared_var_call": lambda case, failure: gp.shared_var_call(case["prog"]),
     "ad_cyclic_complement": lambda case, failure: gp.cyclic_multihead_ad_with_complementary_body(case["prog"]),
     "neg_under_cycle": lambda case, failure: gp.neg_under_active_cycle(case["prog"]),
